@@ -44,12 +44,14 @@ Notation dec_onto := (dec_onto c sch).
 
 Lemma dec_onto_zero_is_dec_l : forall w t, dec_onto (zero_val t) t w = dec t w.
 Proof.
-  induction w using wire_ind'; intros ty0; destruct ty0; try reflexivity.
+  induction w using wire_ind'; intros ty0; destruct ty0; try reflexivity; try (destruct c; reflexivity).
   - (* slice *)
     cbn. f_equal. induction H as [|x r Hx Hr IH]; [reflexivity|]. cbn. rewrite Hx. now rewrite IH.
   - (* map *)
     cbn. f_equal.
-    induction H as [|[k x] r Hx Hr IH]; [reflexivity|]. cbn in *. rewrite Hx. now rewrite IH.
+    induction H as [|[k x] r Hx Hr IH]; [reflexivity|]. cbn [snd] in Hx.
+    replace (match c with Msgpack | _ => zero_val ty0 end) with (zero_val ty0) in * by (destruct c; reflexivity).
+    rewrite Hx. now rewrite IH.
   - (* struct *)
     cbn. destruct (fields_of sch name) as [fs|]; [|reflexivity]. f_equal.
     induction fs as [|f fr IHf]; [reflexivity|]. cbn. rewrite IHf. f_equal.
